@@ -21,11 +21,18 @@ class Recorder:
         self.nan_fired = 0
         self.fired = 0
         self.calls = 0
+        self.t_dtypes = set()    # precisions in which the time argument arrived ('python float', 'torch.float64', ...)
+
+    def lossy_time(self):
+        """names of time-argument types that cannot carry a float64 time stamp (for float64 models)"""
+        return sorted(d for d in self.t_dtypes if d not in ('float', 'int') and not d.endswith('float64')
+                      and not d.endswith('int64') and not d.endswith('int32'))
 
     def __call__(self, f, **kw):
         def spy(t, y, *a):
             k = self.calls
             self.calls += 1
+            self.t_dtypes.add(str(getattr(t, 'dtype', type(t).__name__)))
             yc = np.array(y, copy=True)
             if self.fault_at is not None and k == self.fault_at:
                 self.fired += 1
